@@ -362,7 +362,7 @@ func renderGen(g *GenMod) string {
 		sb.WriteString("\t(global $acc (mut i64) (i64.const 9223372036854775807))\n\t(global $k i32 (i32.const 42))\n")
 	}
 	exp := func(name string) string {
-		if g.Exports == "inline" || g.Exports == "memory+global" {
+		if g.Exports == "inline" || g.Exports == "memory+global" || g.Exports == "inline+alias" {
 			return fmt.Sprintf(" (export \"%s\")", name)
 		}
 		return ""
@@ -387,6 +387,9 @@ func renderGen(g *GenMod) string {
 	}
 	if g.Exports == "memory+global" {
 		sb.WriteString("\t(export \"memory\" (memory $memory))\n\t(export \"k\" (global $k))\n")
+	}
+	if g.Exports == "inline+alias" {
+		sb.WriteString("\t(export \"f_alias\" (func $f))\n\t(export \"g_alias\" (func $g))\n")
 	}
 	if g.Elem == "one" {
 		sb.WriteString("\t(elem (i32.const 0) $f)\n")
